@@ -24,8 +24,8 @@ def tests_against_model(out, tier):
     p = r['resolved']
     n_test = int(p['n_test'])
     for which in ('exh', 'greedy'):
-      for d in (r[which].get('result') or [])[:2]:
-        if d['diag_x'] is None or len(pend) >= (80 if tier == 'quick' else 2000):
+      for d in (r[which].get('result') or [])[:6]:
+        if d['diag_x'] is None or len(pend) >= (300 if tier == 'quick' else 4000):
           continue
         x, y = d['diag_x'], d['diag_y']
         n = len(x)
@@ -64,7 +64,7 @@ def tests_against_model(out, tier):
     want = [float(corr_ok), float(aa_ok), float(bb_ok), float(dw_ok)]
     got = [float(v) for v in d['score'][:4]]
     # knife edges of the other tests
-    if abs(dw - 1.5) < 1e-9 or abs(dw - 2.5) < 1e-9 or abs(d['diag_corr'] - 0.8) < 1e-9:
+    if abs(dw - 1.5) < 1e-9 or abs(dw - 2.5) < 1e-9 or abs(d['diag_corr'] - case['resolved'].get('min_corr', 0.8)) < 1e-9:
       continue
     n_cmp += 1
     if want != got:
